@@ -9,14 +9,16 @@ CLAIMED = {
  "C08": dict(text="Constant folding: Coq theorem C08_fold_correct proves, for all 18 operators and all 2^64 i32 operand pairs, that the model of "
                   "MathOp::operate equals an independently written RV32IM specification (FoldSpec) and stays in range. The model is tied to "
                   "cfg/ops.rs by differential execution (debug and release builds) on a boundary grid squared plus random pairs; the same run "
-                  "judges the implementation's results against the extracted specification, so a wrong fold is reported with the operand pair.",
+                  "judges the implementation's results against the extracted specification, so a wrong fold is reported with the operand pair. Decoding: every mnemonic x operand form of the manual is parsed by code and model and its "
+                  "architectural effect judged; the control transfer of every jump and branch form (any link register) is read off the graph's successor edges.",
              design="8/C08", note=NOTE + "Modelled: Rust i32/i64/u64 arithmetic as Z with explicit wrap.",
              technique="Coq proof over a Gallina model + differential correspondence against the Rust code"),
  "C17": dict(text="Literals: Coq theorem C17_imm_exact proves for every string over the lexer's symbol alphabet that the model of Imm::from_str "
                   "never panics, accepts exactly the spellings that denote a value with a 32-bit representation (hex/bin up to 2^32-1, decimal "
                   "signed range), returns that value's two's-complement word, and rejects everything else; C17_lui_exact and C17_csr_exact cover "
                   "lui's 20-bit check and CSR operands. Tied to parser/imm.rs by differential execution of Imm::from_str/CsrImm::from_str in both "
-                  "profiles on boundary spellings in all notations plus malformed and random strings; the extracted LitSpec judges every answer.",
+                  "profiles on boundary spellings in all notations plus malformed and random strings; the extracted LitSpec judges every answer; `lui` is additionally driven through the parser with every literal (0..0xFFFFF placed in the "
+                  "upper 20 bits, anything else a parse error on the literal).",
              design="8/C17", note=NOTE + "Modelled, not verified: u32::from_str_radix, str::parse::<i64>, str::trim, to_lowercase on ASCII.",
              technique="Coq proof over a Gallina model + differential correspondence against the Rust code"),
 
@@ -58,15 +60,18 @@ CLAIMED = {
                   "trees with any faults: every operand token of every node is a lexer token of its file inside that node's range (C09loc_operands); a "
                   "node's range is the hull from its statement's first to its last consumed token, nodes of different statements are disjoint and in "
                   "source order - except the two nodes of an expanded `lw rd, label`/`sw rs, label, rt`, which share one range (C09loc_node_range); every "
+                  "INSTRUCTION statement consumes its mnemonic and operand tokens only - no newline, no comment - so its range is mnemonic through "
+                  "last operand (C09loc_node_range_tight; true of every form since the fix of the bare `jalr rs` quirk); every "
                   "parse error is located on a lexer item (C09loc_parse_error); and every location of every diagnostic (through the whole pipeline, by "
                   "the position-parametricity theorem) is in a file that was read, inside its text, with consistent line/column/offset, and is either "
                   "one token or the hull of one statement (C09loc_diagnostics, C09loc_tree_diagnostics). Two non-text locations are explicit "
                   "exceptions: the program-entry node and the error for an unreadable base file. Tied to lexer.rs item by item and to the parser and "
                   "pipeline by the node/diagnostic correspondence; the checker also verifies every printed range against the file text (LF, CRLF, "
-                  "leading blank lines, includes).",
+                  "leading blank lines, includes) and that behind an instruction's last operand token its range holds at most the closing parenthesis.",
              design="8/C09", note=NOTE + "Multi-line statements (a data directive continued on the next line) have a hull spanning lines: `span_ok` instead of `range_ok`.",
              technique="Coq proof (lexer state invariant; partial-correctness logic of the statement parser; pipeline provenance) + differential correspondence"),
- "C12": dict(text="Fixed point: Coq theorems prove that the value analysis result satisfies its equations over all predecessors (or was a no-op), that "
+ "C12": dict(text="Fixed point: Coq theorems prove that the value analysis result satisfies its equations over all predecessors whenever the pass returns (unconditional since the fix of its "
+                  "early stop; before, the proof had forced the disjunct 'or the run changed nothing'), that "
                   "value analysis and liveness never touch edges, nodes or functions, that ecall termination is idempotent, that the live sets satisfy "
                   "the exact equations and are reproduced by a re-run, and that the lints ignore u_def. Tied to available.rs/liveness.rs/"
                   "ecall_terminate.rs by stage dumps; the checker applies random sequences of extra pass runs to the implementation's finished graph "
@@ -76,7 +81,8 @@ CLAIMED = {
  "C16": dict(text="CFG errors: Coq theorem proves for every program parsed from any include tree that when the analysis stops, the error is one of four "
                   "specific kinds, is about an occurrence of the named label/function in the parsed nodes, and is located in one of the user's files "
                   "(never the nil file, never 'unexpected error'); and that otherwise all eleven lints run. Tied to graph.rs/directions.rs/"
-                  "function_annotations.rs/cfg_error.rs by comparing error kinds, payloads and locations.",
+                  "function_annotations.rs/cfg_error.rs by comparing error kinds, payloads and locations; the checker builds programs with each stopping condition on purpose (also inside an included "
+                  "file) and requires the right kind at an occurrence of the right name, and that the default output of the rva binary is not silent about it.",
              design="8/C16", note=NOTE + "Relies on the fix commit that introduced the two specific error kinds.",
              technique="Coq proof (case analysis of the error paths, provenance invariant of the value analysis) + differential correspondence"),
 
@@ -85,7 +91,7 @@ CLAIMED = {
                   "the reported node - so a program whose facts meet no trigger gets none; C04_clean_facts_no_diags proves that facts meeting the "
                   "convention-level cleanliness conditions give an empty report. Tied to lints/*.rs and manager.rs by comparing the full diagnostic "
                   "list (kind, location, related) of implementation and model. The property itself is explored on programs generated "
-                  "conforming-by-construction (any call graph incl. recursion, wrappers, nested branches/loops, frames, saved registers, random "
+                  "conforming-by-construction (acyclic call graphs, wrappers, nested branches/loops, calls and ecalls inside function bodies, early returns, frames incl. frame pointers, saved registers, random "
                   "spelling/layout), each confirmed by a concrete run under a convention monitor, which must get zero diagnostics.",
              design="8/C04", note=NOTE + "The step 'a convention-conforming program has clean facts' is not a theorem (it needs a semantic definition of conformance "
                   "over executions); it is covered by the monitored generator.",
@@ -177,7 +183,8 @@ CLAIMED = {
                   "output can be decoded back to them (C18_channels_agree, C18_compact_decode, C18_compact_output). Tied to printer.rs by rendering "
                   "the items returned by the library entry point RVParser::run with the extracted printer model and comparing byte for byte with "
                   "the rva binary's pretty and compact output (with/without --all-files); the checker parses JSON, compact and pretty output back and "
-                  "compares them with each other and with the library items, order included, and checks JSON shape and excerpt/carets against the file.",
+                  "compares them with each other and with the library items, order included, and checks JSON shape and excerpt/carets against the file (the marker "
+                  "must lie inside the shown line and, for 'Labels not defined', under one of the labels named).",
              design="8/C18", note=NOTE + "Colours are not modelled (none are emitted when stdout is not a terminal); JSON text layout is serde_json's (trusted), compared as parsed data. "
                   "Reader-fault messages differ between the in-memory reader and the CLI reader by design and are normalised in the comparison.",
              technique="Coq proof (printer model: excerpt geometry, order preservation, decodability) + byte-exact differential correspondence + cross-channel exploration"),
@@ -197,7 +204,8 @@ CLAIMED = {
                   "return (no panic site reachable, fuel suffices), that the pipeline and lints never panic, and that only the two dataflow loops can fail "
                   "to return. The rest of the property is explored: every input class (soup, raw Unicode, extreme literals and sizes, include graphs, "
                   "self-inclusion on disk) through the library in debug and release builds and the rva binary in ten flag combinations under a watchdog. "
-                  "The dataflow loops do NOT always terminate: recorded as known findings (class = the pass that hangs); any other hang/panic is a violation.",
+                  "The dataflow loops do NOT always terminate: recorded as known findings (class = the pass that hangs AND the model of that pass running out of fuel "
+                  "on the same input); a hang on which the model terminates, and any other hang/panic, is a violation.",
              design="8/C06", note=NOTE + "Partial: termination of AvailableValuePass/LivenessPass is false today (known findings) and not proved for any class; wall-clock "
                   "polynomial bound, stack depth and OS behaviour are observed, not proved.",
              technique="Coq proof (totality of lexer/parser/driver, absence of panic sites) + watchdogged exploration"),
